@@ -34,7 +34,9 @@ def make_X(n, geom, rng, d=2):
     if geom == "distinct":
         return rng.normal(size=(n, d)).round(3)
     if geom == "duplicates":
-        k = max(1, (n + 1) // 2)
+        # small pools: two copies per point; larger pools: three or more copies, so that a point can
+        # carry conflicting labels and still be a candidate
+        k = max(1, (n + 1) // 2) if n <= 5 else max(2, n // 3)
         base = rng.normal(size=(k, d)).round(3)
         return base[np.arange(n) % k].copy()
     if geom == "all-equal":
@@ -178,3 +180,31 @@ def finding_key(tr, rej):
 def describe(tr):
     return dict(tr["concrete"], how="strategy.query(X, y, candidates=candidates, batch_size=batch_size, "
                                     "return_utilities=..., <models from harness.zoo.model_kwargs>)")
+
+
+def random_scenarios(rng, k, n_lo=6, n_hi=10):
+    """larger seeded scenarios (same fields as PoolGen cases); duplicated
+    points with conflicting labels, several candidates per mode"""
+    geoms = ["distinct", "duplicates", "duplicates", "all-equal", "constant-feature", "collinear"]
+    out = []
+    for _ in range(k):
+        n = int(rng.integers(n_lo, n_hi + 1))
+        nl = int(rng.choice([0, 1, 2, 3, 4, n // 2, n - 2]))
+        nl = max(0, min(nl, n - 1))
+        labeled = sorted(int(i) for i in rng.choice(np.arange(1, n + 1), size=nl, replace=False))
+        unl = [i for i in range(1, n + 1) if i not in labeled]
+        mode = ["none", "idx", "rows", "idx-any"][int(rng.integers(4))]
+        if mode == "none":
+            S = []
+            nc = len(unl)
+        elif mode == "idx-any":
+            S = sorted(int(i) for i in rng.choice(np.arange(1, n + 1), size=int(rng.integers(1, n + 1)), replace=False))
+            nc = len(S)
+        else:
+            S = sorted(int(i) for i in rng.choice(unl, size=int(rng.integers(1, len(unl) + 1)), replace=False))
+            nc = len(S)
+        out.append({"n": n, "labeled": labeled, "mode": mode, "S": S,
+                    "bs": int(rng.choice([1, 2, 3, max(1, nc - 1), nc, nc + 1])),
+                    "geom": geoms[int(rng.integers(len(geoms)))],
+                    "labpat": ["one-class", "all-classes", "all-classes"][int(rng.integers(3))]})
+    return out
